@@ -69,6 +69,14 @@ func init() {
 		c.Rule = "one evaluation = one simulated run (modules with generated managed work items: workers, service workers, tasks, microtasks of every priority and variant, event hooks; drain delays; stop by Shutdown or management pass; post-stop submissions; seeded schedule); distinct = distinct hash of the normalised lifecycle + work-item history; non-trivial = at least 2 goroutine switches or a fault fired"
 		props[id] = &c
 	}
+	c7 := *c01
+	c7.QuickRuns, c7.ThoroughRuns, c7.RunsPerProc = 10000, 300000, 200
+	c7.Rule = "one evaluation = one simulated run (1-6 tasks with generated run times, max delays and self actions; 1-3 client goroutines issuing Queue/QueuePrioritized/StartASAP/Schedule/Cancel programs; optional microtask load; seeded schedule); distinct = distinct hash of the operation + execution history; non-trivial = at least 2 goroutine switches"
+	props["C07"] = &c7
+	c15 := *c01
+	c15.QuickRuns, c15.ThoroughRuns, c15.RunsPerProc = 12000, 300000, 200
+	c15.Rule = "one evaluation = one simulated run (limit 2-6, 1-8 submitter goroutines, 1-40 microtasks of every priority and variant with run times, errors, panics, repeated done calls; generous or tight max delays; seeded schedule); distinct = distinct hash of configuration + per-submission outcome + observed maximum concurrency; non-trivial = at least 2 goroutine switches or a fault fired"
+	props["C15"] = &c15
 }
 
 func env() []string {
